@@ -64,6 +64,7 @@ package grammar
 //@ loop 0: invariant justIC(g, IC, old(len(IC.Items)))
 //@ loop 0: invariant forall i int :: 0 <= i && i < old(len(IC.Items)) ==> IC.Items[i] == old(IC.Items)[i]
 //@ loop 0: after closedIC(g, IC)
+//@ loop 0: terminates_assumed every pass that does not stop adds an item (r, 0) with r < len(rules) that was not in the set (proved: no duplicates, items only added); at most len(rules) such items exist - the counting measure is not expressible here
 //@ loop 1: invariant okItems(g, IC) && IC.Items == before(IC.Items) && IC.itemMap == before(IC.itemMap) && unchanged(item.Item)
 //@ loop 1: invariant forall p *item.Item :: before(allocated(p)) ==> p.RuleIndex == before(p.RuleIndex) && p.Dot == before(p.Dot)
 //@ loop 1: invariant forall k int :: 0 <= k && k < len(items) ==> items[k] != nil && allocated(items[k]) && items[k].Dot == 0 && 0 <= items[k].RuleIndex && items[k].RuleIndex < len(g.ProductoinRules)
@@ -104,6 +105,7 @@ package grammar
 //@ modifies symbol.Symbol.CanTerminate
 //@ loop 0: invariant forall s *symbol.Symbol :: old(s.CanTerminate) ==> s.CanTerminate
 //@ loop 0: after closedTerm(g, len(g.ProductoinRules))
+//@ loop 0: terminates_assumed every pass that does not stop marks at least one more of the finitely many symbols and marks are never removed (proved: monotone) - the counting measure (number of unmarked symbols) is not expressible in this SMT encoding
 //@ loop 1: invariant 0 <= change
 //@ loop 1: invariant forall s *symbol.Symbol :: before(s.CanTerminate) ==> s.CanTerminate
 //@ loop 1: invariant change == 0 ==> (forall s *symbol.Symbol :: s.CanTerminate == before(s.CanTerminate)) && closedTerm(g, idx1)
@@ -125,6 +127,7 @@ package grammar
 //@ modifies symbol.Symbol.IsEpsilonClosure, symbol.Symbol.CanTerminate
 //@ loop 0: invariant forall s *symbol.Symbol :: (old(s.IsEpsilonClosure) ==> s.IsEpsilonClosure) && (old(s.CanTerminate) ==> s.CanTerminate)
 //@ loop 0: after closedEps(g, len(g.ProductoinRules))
+//@ loop 0: terminates_assumed as CalculateCanTerminate: every pass that does not stop marks at least one more of the finitely many symbols; marks are never removed (proved)
 //@ loop 1: invariant 0 <= change
 //@ loop 1: invariant forall s *symbol.Symbol :: (before(s.IsEpsilonClosure) ==> s.IsEpsilonClosure) && (before(s.CanTerminate) ==> s.CanTerminate)
 //@ loop 1: invariant change == 0 ==> (forall s *symbol.Symbol :: s.IsEpsilonClosure == before(s.IsEpsilonClosure)) && closedEps(g, idx1)
@@ -168,3 +171,13 @@ func spec_itemStr(g *Grammar, r int, d int) string { panic("spec") }
 //@ loop 2: invariant r == before(r) && it == before(it)
 // the symbols printed before "@" are rhs[0..Dot), those after it rhs[Dot..)
 //@ loop 1: invariant [C18] rng1 == g.ProductoinRules[it.RuleIndex].RighPart[:it.Dot]
+
+// ---------------------------------------------------------------------------------------------
+// C13: the worklist over the states terminates because of the built-in limit: a pass that leaves 2000 or more states stops
+// generation with a message, so the index can advance at most 2000 times
+//@ func (*Grammar).ComputeAllGoto
+//@ props_tagged_only C13
+//@ requires g != nil && g.LR0 != nil && len(g.LR0.LR0Closure) < 2000
+//@ may_panic "too manay states!"
+//@ loop 0: invariant [C13] 0 <= i && g.LR0 != nil && len(g.LR0.LR0Closure) < 2000
+//@ loop 0: decreases [C13] 2000 - i
